@@ -1,11 +1,11 @@
 \* as coded, 3 blocks, start 1
 CONSTANTS HA = 3 HB = 0 ForkAt = 0 Start = 1 MaxIter = 4 WithCancel = TRUE
   Peers = {"honest", "trunc", "down", "benign"}
-  Verify = TRUE Retry = TRUE CheckedStore = TRUE CtxAwareSends = FALSE
+  Verify = TRUE Retry = TRUE CheckedStore = TRUE CtxAwareSends = FALSE FieldsChecked = FALSE
   ClassOf <- MCIdentity EmptyA <- MCEmptyMix EmptyB <- MCNoEmpty
 INIT Init
 NEXT Next
 VIEW view
-INVARIANTS TypeOK StoredIsChain OnlyVerified EmittedVerified PrefixOfA NoSkip ExitOnlyAfterCancel
+INVARIANTS TypeOK StoredIsChain OnlyVerified EmittedVerified PrefixOfA NoSkip ExitOnlyAfterCancel NoCrash
 PROPERTIES StoreExtends
 CHECK_DEADLOCK FALSE
